@@ -56,7 +56,10 @@ def mapFst (ρ : Path → Path) (l : List (Path × String)) : List (Path × Stri
 
 /-- the identities follow the relabelling: entry `i` of a table is the same object under its new path -/
 def Tabs.mapPaths (t : Tabs) (ρ : Path → Path) : Tabs :=
-  { ctab := mapFst ρ t.ctab, rtab := mapFst ρ t.rtab, slots := mapFst ρ t.slots, gv := t.gv }
+  { ctab := mapFst ρ t.ctab, rtab := mapFst ρ t.rtab, slots := mapFst ρ t.slots, gv := t.gv,
+    -- a declared slot keeps the spelling it had: `S.x` in a formula elsewhere goes through an object-valued
+    -- reference to the space, which still holds the renamed object
+    spell := t.slots.map (fun e => (ρ e.1, spellOf t.spell e.1)) }
 
 /-- the relabelling of the tables for `p.rename(new)` -/
 def renameMap (p : Path) (new : String) : Path → Path := swapAt p.dropLast (p.getLast?.getD "") new
@@ -118,12 +121,5 @@ def stepCoveredR (P : Params) (w : W) : OpR → Bool
     match w.sm.renameSpace P.kw p new with
     | .error _ => true
     | .ok _ => renameCovered w.tabs w.sm p (renameClearing w.tabs w.sm p)
-
-/-- the theorems about a rename assume that no DECLARED attribute slot lies in a space whose path the
-rename changes: a source that spells a slot by the path of its space (`S.x`, `spelled`) is bound through an
-object-valued reference to the space in the code – which follows the object – and by the path in this
-model.  (`_space.x` slots follow the rename in the model: `Tabs.mapPaths` relabels `slots`.) -/
-def slotsFixed (t : Tabs) (p : Path) (new : String) : Bool :=
-  t.slots.all (fun e => renameMap p new e.1 == e.1)
 
 end MxModel.Edit
